@@ -1,5 +1,6 @@
 import RedisVerif.Driver.Codec
 import RedisVerif.Model.Stream
+import RedisVerif.Model.StreamActor
 
 /-
   C12 / C13 sub-driver (stateful): one process (`StreamingPersistence` + `Compactor`) on an
@@ -18,6 +19,25 @@ import RedisVerif.Model.Stream
     CRASH <c> <0|1>                                     → the recorded workload re-run with the process dying at
                                                           store call c (1: inside a put, leaving a torn object):
                                                           recovery of the store image + refs=<0|1>
+
+  The layer above the writer (M4b, `Model/StreamActor.lean`):
+    XNEW <rid> <intervalNs> <maxSize> <maxDeltas> <backpressure> <cap> <now> <nf> (<idx> <fault>)*   → ok
+    XCAP                                                → PERSISTENCE_CHANNEL_CAPACITY of the model
+    XPUSH <key> <rv> <klen>                             → StreamingPersistence::push: ok|err + pending=<n> bytes=<b>
+    XSHOULD                                             → should_flush(): 0|1
+    XFLUSH <sz>                                         → flush(): as FLUSH, plus bytes=<b>
+    XADV <ms>                                           → the clock advances: ok
+    XWPUSH <key> <rv> <klen> / XWSHOULD / XWFLUSH       → the stand-alone WriteBuffer (push / should_flush / flush)
+    ASEND <key> <rv> <klen>                             → DeltaSinkSender::send: ok | err disconnected
+    ADRAIN / ATICK / ASTOPBRIDGE / AREQSHUTDOWN         → one event each: ok
+    ARUN                                                → the actor handles messages until its mailbox is empty (or it
+                                                          exits): calls=<c> segs=[id:count,..]     (ARUNQ: → ok)
+    XFAILALL <0|1>                                      → every store call fails (without effect) while set
+    AMISSING                                            → stored=<n> missing=<n> <keys of the updates handed to the sink
+                                                          that are in no confirmed segment, sorted>
+    AREC                                                → recovery of the actor's store image
+    ALEDGER                                             → sent=<n> accepted=<n> acked=<n> pending=<n> inflight=<n>
+                                                          rejected=<n> skipped=<n> dropped=<n>
 -/
 namespace RedisVerif.Driver.C12
 open RedisVerif RedisVerif.Driver RedisVerif.Stream
@@ -33,6 +53,13 @@ structure St where
   rootFaults : List (Nat × Fault)
   rootOps : List Op
   restarted : Bool
+  /-- M4b: configuration, mailbox capacity, faults and state of the actor pipeline -/
+  acfg : StreamActor.WbCfg := default
+  acap : Nat := 0
+  afaults : List (Nat × Fault) := []
+  afailAll : Bool := false
+  act : StreamActor.A := default
+  wb : StreamActor.WB := StreamActor.WB.init
   deriving Inhabited
 
 def init : St := { base := [], rid := 0, faults := [], ops := [], sys := Sys.init [] 0, rootFaults := [], rootOps := [], restarted := false }
@@ -94,7 +121,116 @@ def parseFaults : List String → Option (List (Nat × Fault))
     let r ← parseFaults rest
     pure ((n, ft) :: r)
 
+def showSegs (st : Store) : String :=
+  match NMap.get st manifestName with
+  | some (.manifest m) => "[" ++ ",".intercalate (m.segments.map (fun sg => s!"{sg.id}:{sg.count}")) ++ "]"
+  | some _ => "unparsable"
+  | none => "[]"
+
+/-- the actor handles messages until its mailbox is empty or it has exited (fuel = mailbox length) -/
+def actorDrain (F : Oracle) (cfg : StreamActor.WbCfg) (cap : Nat) : Nat → StreamActor.A → StreamActor.A
+  | 0, a => a
+  | n + 1, a =>
+    if a.alive && !a.mailbox.isEmpty then actorDrain F cfg cap n (StreamActor.step F cfg cap a (.actor 0)) else a
+
+def sdelta (line : String) (kw : String) : Option StreamActor.SDelta :=
+  let p : P StreamActor.SDelta := do
+    expect kw
+    let k ← strKey
+    let v ← rv
+    let n ← nat
+    pure ((k, v), n)
+  runP p line
+
+def stepX (s : St) (line : String) : Option (St × String) :=
+  let F : Oracle := if s.afailAll then (fun _ => Fault.fail) else oracleOf s.afaults
+  let ev (e : StreamActor.Ev) : Option (St × String) :=
+    some ({ s with act := StreamActor.step F s.acfg s.acap s.act e }, "ok")
+  match tokens line with
+  | "XNEW" :: r :: a :: b :: c :: d :: e :: f :: nf :: rest =>
+    match r.toNat?, a.toNat?, b.toNat?, c.toNat?, d.toNat?, e.toNat?, f.toNat?, nf.toNat?, parseFaults rest with
+    | some rid, some iv, some ms, some md, some bp, some cap, some now, some n, some fs =>
+      if fs.length = n then
+        some ({ s with rid := rid, acfg := { intervalNs := iv, maxSize := ms, maxDeltas := md, backpressure := bp },
+                       acap := cap, afaults := fs, afailAll := false, act := StreamActor.A.init [] rid now, wb := StreamActor.WB.init }, "ok")
+      else some (s, "bad-op")
+    | _, _, _, _, _, _, _, _, _ => some (s, "bad-op")
+  | ["XCAP"] => some (s, toString StreamActor.channelCapacity)
+  | "XPUSH" :: _ =>
+    match sdelta line "XPUSH" with
+    | some d =>
+      let r := StreamActor.pushX s.acfg s.act.x d
+      let a' : StreamActor.A := { s.act with x := r.1 }
+      some ({ s with act := a' }, s!"{if r.2 then "ok" else "err"} pending={a'.x.p.buffer.length} bytes={a'.x.size}")
+    | none => some (s, "bad-op")
+  | ["XSHOULD"] => some (s, b01 (StreamActor.shouldFlush s.acfg s.act.now s.act.x))
+  | ["XFLUSH", z] =>
+    match z.toNat? with
+    | some sz =>
+      let r := StreamActor.flushX F sz s.act.now s.act.w s.act.x
+      let a' := StreamActor.doFlush F sz s.act
+      let o := match r.2.2 with
+        | .empty => s!"ok empty calls={a'.w.calls}"
+        | .flushed id n => s!"ok seg={id} n={n} pending={a'.x.p.buffer.length} calls={a'.w.calls}"
+        | .error => s!"err pending={a'.x.p.buffer.length} calls={a'.w.calls}"
+      some ({ s with act := a' }, s!"{o} bytes={a'.x.size}")
+    | none => some (s, "bad-op")
+  | ["XADV", m] =>
+    match m.toNat? with
+    | some ms => ev (.advance ms)
+    | none => some (s, "bad-op")
+  | "XWPUSH" :: _ =>
+    match sdelta line "XWPUSH" with
+    | some d =>
+      let r := StreamActor.wbPush s.acfg s.wb d
+      some ({ s with wb := r.1 }, s!"{if r.2 then "ok" else "err"} pending={r.1.deltas.length} bytes={r.1.bytes}")
+    | none => some (s, "bad-op")
+  | ["XWSHOULD", e] =>
+    -- `last_flush.elapsed() >= flush_interval` is real time: the harness passes what it was
+    match e.toNat? with
+    | some el =>
+      let b := s.wb
+      some (s, b01 (if b.deltas.isEmpty then false
+                    else decide (b.bytes ≥ s.acfg.maxSize) || decide (b.deltas.length ≥ s.acfg.maxDeltas) || el != 0))
+    | none => some (s, "bad-op")
+  | ["XWFLUSH"] =>
+    let r := StreamActor.wbFlush F s.act.w s.wb
+    let o := match r.2.2 with
+      | none => "ok none"
+      | some true => s!"ok seg={s.wb.counter}"
+      | some false => "err"
+    some ({ s with wb := r.2.1, act := { s.act with w := r.1 } }, s!"{o} pending={r.2.1.deltas.length} bytes={r.2.1.bytes} calls={r.1.calls}")
+  | "ASEND" :: _ =>
+    match sdelta line "ASEND" with
+    | some d =>
+      some ({ s with act := StreamActor.step F s.acfg s.acap s.act (.send d) }, if s.act.bridge then "ok" else "err disconnected")
+    | none => some (s, "bad-op")
+  | ["ADRAIN"] => ev .drain
+  | ["ATICK"] => ev .bridgeTick
+  | ["ASTOPBRIDGE"] => ev .stopBridge
+  | ["AREQSHUTDOWN"] => ev .reqShutdown
+  | ["ARUN"] =>
+    let a' := actorDrain F s.acfg s.acap (s.act.mailbox.length + 1) s.act
+    some ({ s with act := a' }, s!"calls={a'.w.calls} segs={showSegs a'.w.store}")
+  | ["ARUNQ"] =>
+    some ({ s with act := actorDrain F s.acfg s.acap (s.act.mailbox.length + 1) s.act }, "ok")
+  | ["XFAILALL", b] => some ({ s with afailAll := b != "0" }, "ok")
+  | ["AMISSING"] =>
+    -- everything handed to the sink that is in no confirmed segment, by key
+    let a := s.act
+    let lost := StreamActor.inFlight a ++ a.rejected ++ a.skipped ++ a.dropped
+    let keys := sortStr (lost.map (fun d => showKey d.1))
+    some (s, s!"stored={a.acked.length} missing={keys.length} {" ".intercalate keys}")
+  | ["AREC"] => some (s, showRec (recover s.act.w.store s.rid))
+  | ["ALEDGER"] =>
+    let a := s.act
+    some (s, s!"sent={a.sent.length} accepted={a.accepted.length} acked={a.acked.length} pending={a.x.p.buffer.length} inflight={(StreamActor.inFlight a).length} rejected={a.rejected.length} skipped={a.skipped.length} dropped={a.dropped.length}")
+  | _ => none
+
 def step (s : St) (line : String) : St × String :=
+  match stepX s line with
+  | some r => r
+  | none =>
   match tokens line with
   | "NEW" :: r :: nf :: rest =>
     match r.toNat?, nf.toNat?, parseFaults rest with
